@@ -423,6 +423,11 @@ CER_SETOF = [(CE, 'cer.encoder::SetOfEncoder.encodeValue[up-to-3-members]')]
 for _p in ('C03', 'C04', 'C02'):
     PROPS[_p]['contracts'] = PROPS[_p]['contracts'] + CER_SETOF
 PROPS['C19']['contracts'] = PROPS['C19']['contracts']    # (containers registered above)
+NT = 'contracts.namedtype'
+import contracts.namedtype as _nt
+NAMEDTYPES = [(NT, c.id) for c in _nt.CONTRACTS]
+for _p in ('C09', 'C10'):
+    PROPS[_p]['contracts'] = PROPS[_p]['contracts'] + NAMEDTYPES
 for _p in list(PROPS):
     NOT_CLAIMED.pop(_p, None)
 
